@@ -181,6 +181,12 @@ unsafe fn free_weights(w: Weights) {
     destroy_wmc_params_poly(w.cp);
 }
 
+/// diagram handles are never freed by the harness: the C interface exports no function to free one (only
+/// free_bdd_manager), so how a handle is allocated is the library's business. (An earlier version dropped
+/// them as Box<BddPtr>, which assumed the current representation and turned a change of it into an abort
+/// of the harness instead of a verdict.)
+fn release<T>(_c: *mut T) {}
+
 unsafe fn cstring(p: *const c_char) -> String {
     // the library hands over ownership (mem::forget of a CString): take it back to free it
     let s = CStr::from_ptr(p).to_string_lossy().to_string();
@@ -218,8 +224,8 @@ unsafe fn observe<'a>(mgr: *mut c_void, c: CB, nat: BddPtr<'a>, want: TT, n: usi
         if bdd_tt(*cl, n) != tt::cofactor(want, t, false, n) || bdd_tt(*ch, n) != tt::cofactor(want, t, true, n) {
             fail("children", "bdd_low / bdd_high are not the cofactors on the top variable".into(), rep);
         }
-        drop(Box::from_raw(cl));
-        drop(Box::from_raw(ch));
+        release(cl);
+        release(ch);
     }
     if bdd_count_nodes(c) != nat.count_nodes() {
         fail("count-nodes", format!("bdd_count_nodes = {}, native {}", bdd_count_nodes(c), nat.count_nodes()), rep);
@@ -425,10 +431,10 @@ fn sweep(n: usize, ctx: &Ctx) -> Report {
                     let c = bdd_and(mgr, fc[i], fc[j]);
                     rep.transitions += 2;
                     observe(mgr, c, nb.and(fnat[i], fnat[j]), (i & j) as TT, n, &w, full, &format!("bdd_and({:#x}, {:#x})", i, j), &mut rep);
-                    drop(Box::from_raw(c));
+                    release(c);
                     let c = bdd_or(mgr, fc[i], fc[j]);
                     observe(mgr, c, nb.or(fnat[i], fnat[j]), (i | j) as TT, n, &w, full, &format!("bdd_or({:#x}, {:#x})", i, j), &mut rep);
-                    drop(Box::from_raw(c));
+                    release(c);
                     if rep.n_violations > 8 {
                         break 'p;
                     }
@@ -444,13 +450,13 @@ fn sweep(n: usize, ctx: &Ctx) -> Report {
                 let c = bdd_negate(mgr, fc[i]);
                 rep.transitions += 1;
                 observe(mgr, c, nb.negate(fnat[i]), tt::not(i as TT, n), n, &w, i % 8 == 0, &format!("bdd_negate({:#x})", i), &mut rep);
-                drop(Box::from_raw(c));
+                release(c);
                 for v in 0..n {
                     for j in (0..total).step_by(step.max(if total > 16 { 5 } else { 1 })) {
                         let c = bdd_compose(mgr, fc[i], v as u64, fc[j]);
                         rep.transitions += 1;
                         observe(mgr, c, nb.compose(fnat[i], VarLabel::new(v as u64), fnat[j]), tt::compose_def(i as TT, v, j as TT, n), n, &w, false, &format!("bdd_compose({:#x}, {}, {:#x})", i, v, j), &mut rep);
-                        drop(Box::from_raw(c));
+                        release(c);
                     }
                 }
                 if rep.n_violations > 8 {
@@ -464,7 +470,7 @@ fn sweep(n: usize, ctx: &Ctx) -> Report {
                         let c = bdd_ite(mgr, fc[i], fc[j], fc[k]);
                         rep.transitions += 1;
                         observe(mgr, c, nb.ite(fnat[i], fnat[j], fnat[k]), tt::ite(i as TT, j as TT, k as TT, n), n, &w, false, &format!("bdd_ite({:#x}, {:#x}, {:#x})", i, j, k), &mut rep);
-                        drop(Box::from_raw(c));
+                        release(c);
                     }
                 }
                 if rep.n_violations > 8 {
@@ -490,7 +496,7 @@ fn sweep(n: usize, ctx: &Ctx) -> Report {
                 let c = bdd_and(mgr, fc[i], nv);
                 rep.transitions += 1;
                 observe(mgr, c, nb.and(fnat[i], nn), tt::extend(i as TT, n, n2) & tt::var(n + 1, n2), n2, &w2, true, &format!("bdd_and({:#x}, new variable)", i), &mut rep);
-                drop(Box::from_raw(c));
+                release(c);
             }
             free_weights(w2);
             // a second run-time variable, created negative, and then both literals of every
@@ -515,13 +521,13 @@ fn sweep(n: usize, ctx: &Ctx) -> Report {
                             rep.violation("ffi:eq", format!("bdd_eq(bdd_var({}, {}), bdd_new_var(false)) = {}", lab, pol, e), json!({"kind": "ffi"}));
                         }
                     }
-                    drop(Box::from_raw(x));
+                    release(x);
                 }
             }
             free_weights(w3);
         }
         for c in fc {
-            drop(Box::from_raw(c));
+            release(c);
         }
         free_weights(w);
         free_bdd_manager(mgr);
@@ -584,7 +590,7 @@ fn check_cnf_path(clauses: &[Clause], rep: &mut Report) {
             if !same_order(&*vo, &nvo) || (0..n).any(|i| (*vo).var_at_level(i).value_usize() != p[i]) {
                 fail("var-order-new", format!("var_order_new({:?}) differs from VarOrder::new on the same sequence", p), rep);
             }
-            drop(Box::from_raw(vo));
+            release(vo);
         }
         let perm: Vec<u64> = if n >= 3 { let mut q: Vec<u64> = (1..n as u64).collect(); q.push(0); q } else { (0..n as u64).rev().collect() };
         let von = var_order_new(perm.as_ptr(), perm.len());
@@ -613,7 +619,7 @@ fn check_cnf_path(clauses: &[Clause], rep: &mut Report) {
                 fail("compile-cnf", format!("the diagram compiled through the C builder over var_order_new({:?}) differs structurally from the native one under that order", order), rep);
             }
         }
-        drop(Box::from_raw(r));
+        release(r);
         free_bdd_manager(b);
         // dtree -> vtree -> SDD
         let dt = dtree_from_cnf(cnf, mf);
@@ -642,12 +648,12 @@ fn check_cnf_path(clauses: &[Clause], rep: &mut Report) {
                     fail("sdd-wmc", format!("sdd_wmc = {}, native {}", a, bb), rep);
                 }
                 free_wmc_params_f64(wf);
-                drop(Box::from_raw(s));
+                release(s);
                 drop(Box::from_raw(sb as *mut rsdd::builder::sdd::CompressionSddBuilder<'static>));
             }
             _ => fail("vtree-from-dtree", "vtree_from_dtree null-ness differs from the native result".into(), rep),
         }
-        drop(Box::from_raw(dt));
+        release(dt);
         // top-down
         let db = ddnnf_builder_new(lin);
         let d = ddnnf_builder_compile_cnf_topdown(db, cnf);
@@ -655,10 +661,10 @@ fn check_cnf_path(clauses: &[Clause], rep: &mut Report) {
         if bdd_tt(*d, n) != f {
             fail("ddnnf-compile", format!("ddnnf_builder_compile_cnf_topdown has models {:#x}, the CNF {:#x}", bdd_tt(*d, n), f), rep);
         }
-        drop(Box::from_raw(d));
+        release(d);
         drop(Box::from_raw(db as *mut rsdd::builder::decision_nnf::StandardDecisionNNFBuilder<'static>));
-        drop(Box::from_raw(mf));
-        drop(Box::from_raw(cnf));
+        release(mf);
+        release(cnf);
         drop(Box::from_raw(cnf2 as *mut Cnf));
     }
 }
@@ -752,6 +758,127 @@ pub fn growth_schedules(depth: usize) -> Report {
     rep
 }
 
+/// two managers alive on one thread: every sequence of at most `depth` calls over {a handle-producing call
+/// on manager A, one on manager B, bdd_high / bdd_low of a B diagram (these take no manager argument), a new
+/// conjunction in B, freeing A}; after every call every live B handle is read through calls that produce no
+/// handle (bdd_eq with the reference handles made at the start, bdd_topvar, robdd_model_count). Handles of
+/// one manager must not be affected by what happens to another.
+pub fn two_managers(depth: usize) -> Report {
+    let mut rep = Report::default();
+    rep.exhaustive = true;
+    let nact = 6usize;
+    let names = ["bdd_var(A, 2, true)", "bdd_var(B, 2, true)", "h = bdd_high(x0 & x1 of B)", "l = bdd_low(x0 | x1 of B)", "bdd_and(B, x0, !x1)", "free_bdd_manager(A)"];
+    let mut seq: Vec<usize> = vec![];
+    fn next(seq: &mut Vec<usize>, depth: usize, nact: usize) -> bool {
+        if seq.len() < depth {
+            seq.push(0);
+            return true;
+        }
+        while let Some(last) = seq.pop() {
+            if last + 1 < nact {
+                seq.push(last + 1);
+                return true;
+            }
+        }
+        false
+    }
+    while next(&mut seq, depth, nact) {
+        // A is freed at most once and not used afterwards; only maximal sequences and those that end in a
+        // child / free call get a run of their own
+        let mut freed = false;
+        let mut legal = true;
+        for &a in seq.iter() {
+            if freed && (a == 0 || a == 5) {
+                legal = false;
+            }
+            if a == 5 {
+                freed = true;
+            }
+        }
+        if !legal || (seq.len() < depth && !matches!(seq.last(), Some(2) | Some(3) | Some(5))) {
+            continue;
+        }
+        rsdd::verif::set_table_capacity(8);
+        let r = guarded(|| unsafe {
+            let ma = mk_bdd_manager_default_order(3);
+            let mb = mk_bdd_manager_default_order(3);
+            let x0 = bdd_var(mb, 0, true);
+            let x1 = bdd_var(mb, 1, true);
+            let f = bdd_and(mb, x0, x1);
+            let g = bdd_or(mb, x0, x1);
+            // (handle, reference handle it must equal, expected top variable, expected model count over 3 variables, name)
+            let mut live: Vec<(CB, CB, u64, u64, &str)> = vec![(x0, x0, 0, 4, "x0"), (x1, x1, 1, 4, "x1"), (f, f, 0, 2, "x0 & x1"), (g, g, 0, 6, "x0 | x1")];
+            let mut x2ref: Option<CB> = None;
+            let mut a_alive = true;
+            let mut bad: Option<String> = None;
+            'steps: for (i, &a) in seq.iter().enumerate() {
+                match a {
+                    0 => {
+                        let _ = bdd_var(ma, 2, true);
+                    }
+                    1 => {
+                        let h = bdd_var(mb, 2, true);
+                        let r = *x2ref.get_or_insert(h);
+                        live.push((h, r, 2, 4, "x2"));
+                    }
+                    2 => live.push((bdd_high(f), x1, 1, 4, "bdd_high(x0 & x1)")),
+                    3 => live.push((bdd_low(g), x1, 1, 4, "bdd_low(x0 | x1)")),
+                    4 => {
+                        let h = bdd_and(mb, x0, bdd_negate(mb, x1));
+                        live.push((h, h, 0, 2, "x0 & !x1"));
+                    }
+                    _ => {
+                        free_bdd_manager(ma);
+                        a_alive = false;
+                    }
+                }
+                // between the calls only observers that take no manager argument (a call with a manager
+                // argument would make that manager "the one used last" and be part of the history)
+                for &(h, _, top, _, name) in live.iter() {
+                    if bdd_topvar(h) != top || bdd_is_const(h) {
+                        bad = Some(format!("step {}: the handle of {} now has top variable {} (constant: {}), it was created with top variable {}", i, name, bdd_topvar(h), bdd_is_const(h), top));
+                        break 'steps;
+                    }
+                }
+            }
+            if bad.is_none() {
+                for &(h, r, top, mc, name) in live.iter() {
+                    if !bdd_eq(mb, h, r) {
+                        bad = Some(format!("at the end: the handle of {} is no longer equal (bdd_eq) to the diagram it was created as", name));
+                        break;
+                    }
+                    if bdd_topvar(h) != top || robdd_model_count(mb, h) != mc {
+                        bad = Some(format!("at the end: the handle of {} has top variable {} and {} models (expected {} and {})", name, bdd_topvar(h), robdd_model_count(mb, h), top, mc));
+                        break;
+                    }
+                }
+            }
+            if a_alive {
+                free_bdd_manager(ma);
+            }
+            free_bdd_manager(mb);
+            bad
+        });
+        rsdd::verif::set_table_capacity(0);
+        rep.traces += 1;
+        rep.transitions += seq.len() as u64;
+        let hist: Vec<&str> = seq.iter().map(|&a| names[a]).collect();
+        match r {
+            Ok(None) => {}
+            Ok(Some(w)) => {
+                rep.violation("ffi:handle-changed", format!("two managers A, B with 3 variables each, history {:?}: {}", hist, w), json!({"kind": "ffi_two_managers", "depth": depth}));
+                break;
+            }
+            Err(p) => {
+                rep.violation("ffi:panic", format!("two managers, history {:?} panicked: {}", hist, p), json!({"kind": "ffi_two_managers", "depth": depth}));
+                break;
+            }
+        }
+    }
+    rep.states = rep.traces;
+    rep
+}
+
 unsafe fn bdd_iff_c(mgr: *mut c_void, a: CB, b: CB) -> CB {
     bdd_ite(mgr, a, b, bdd_negate(mgr, b))
 }
@@ -774,6 +901,13 @@ pub fn run(ctx: &Ctx) -> Report {
         let g = growth_schedules(ctx.tier.pick(5, 6));
         rep.add_extra("growth_schedule_histories", g.traces);
         rep.bound("growth_schedules", json!({"initial_variables": 2, "pool": ["x0", "!x0", "x0|x1", "x0 xor x1"], "alphabet": "count of a pool member, bdd_new_label, bdd_new_var(true), bdd_new_var(false)", "max_calls": ctx.tier.pick(5, 6)}));
+        rep.merge(g);
+    }
+    // two managers on one thread
+    if !crate::core::disabled("twomgr") {
+        let g = two_managers(ctx.tier.pick(5, 6));
+        rep.add_extra("two_manager_histories", g.traces);
+        rep.bound("two_managers", json!({"variables_each": 3, "alphabet": "handle-producing call on A / on B, bdd_high, bdd_low, a conjunction in B, free A", "max_calls": ctx.tier.pick(5, 6)}));
         rep.merge(g);
     }
     // constructors
@@ -811,6 +945,7 @@ pub fn replay(ctx: &Ctx, case: &Value) -> Report {
     match case["kind"].as_str() {
         Some("ffi_cnf") => check_cnf_path(&cnf_from_json(&case["cnf"]), &mut rep),
         Some("ffi_wide") => rep.merge(wide_counts(case["n"].as_u64().unwrap_or(20) as usize)),
+        Some("ffi_two_managers") => rep.merge(two_managers(case["depth"].as_u64().unwrap_or(5) as usize)),
         Some("ffi_growth") => rep.merge(growth_schedules(case["depth"].as_u64().unwrap_or(5) as usize)),
         _ => {
             let n = case["n"].as_u64().unwrap_or(3) as usize;
